@@ -1,6 +1,7 @@
 PROPERTY = 'C05'
 UNITS = {
   'range': dict(wrapper='w_range.cpp', mode='seq', selftest=True),
+  'rvec': dict(wrapper='w_rvec.cpp', mode='seq', selftest=True, cxxflags=['-fno-rtti']),
   'loop0': dict(wrapper='w_loop.cpp', mode='seq', cxxflags=['-DVP_PART=0', '-fno-rtti']),
   'loop1': dict(wrapper='w_loop.cpp', mode='seq', cxxflags=['-DVP_PART=1', '-fno-rtti']),
   'loop2': dict(wrapper='w_loop.cpp', mode='seq', cxxflags=['-DVP_PART=2', '-fno-rtti']),
@@ -33,6 +34,8 @@ HARNESSES = [
        desc='x', bounds={}),
   dict(name='taskstep_affinity', unit='loop3', harness='h_loop.c', defines={'PART': 3, 'ROOT': 0}, scenarios=[{'K': 1, 'P': 2}], timeout=900, cbmc=['--unwind', '8', '--object-bits', '12'],
        desc='x', bounds={}),
+  dict(name='rvec', unit='rvec', harness='h_rvec.c', scenarios=[{'OP': 0}, {'OP': 1}, {'OP': 2}], timeout=900, cbmc=['--unwind', '10'],
+       desc='range_vector<Range,8> split_to_fill/pop_back/pop_front from an arbitrary valid ring state', bounds={}),
 ]
 OUTSIDE = []
 STUBS = []
